@@ -87,6 +87,43 @@
 //	          no default clause; "string default" line comes from the trailing return
 //	    every case has one expression and exactly one statement; switches have no init.
 //	    A "type T U" without methods only gets its typedecl line.
+//	F12 Generated node types, after the enum blocks. A node <Node> (key of the nd literal, in
+//	    literal order) has generated code iff "type xxx_<Node> struct" exists; S = xxx_<Node>.
+//	      type S struct { sync.Mutex; network string; address string; rx S_Rx; tx S_Tx }
+//	                                         -> nodegen <Node> struct @L
+//	      methods of S, each with receiver (n *S), exactly these seven:
+//	        Descriptor() *descriptor.Node { return Nodes().<X> }      -> nodegen <Node> descriptor=<X> @L(return)
+//	        Run(ctx context.Context) error { return canrunner.Run(ctx, n) }
+//	        Rx() <Node>_Rx { return &n.rx }      Tx() <Node>_Tx { return &n.tx }
+//	        Connect() (net.Conn, error) { return socketcan.Dial(n.network, n.address) }
+//	        ReceivedMessage(id uint32) (canrunner.ReceivedMessage, bool) { switch id {
+//	          case <dec>: return &n.rx.<field>, true     -> nodegen <Node> received case=<dec> field=<field> @L(case)
+//	          default: return nil, false                 -> nodegen <Node> received default @L   (required, last)
+//	        } }                                  the switch is the only statement, no init
+//	        TransmittedMessages() []canrunner.TransmittedMessage {
+//	          return []canrunner.TransmittedMessage{ &n.tx.<field>, ... } }
+//	                                         -> nodegen <Node> transmitted field=<field> @L(element)
+//	      type S_Rx struct { parentMutex *sync.Mutex; <field> <T> ... }  (one name, Ident type)
+//	                                         -> nodegen <Node> rxfield <field> type=<T> @L    (S_Tx: txfield)
+//	      every rxfield type T: type T struct { <Msg>; receiveTime time.Time;
+//	        afterReceiveHook func(context.Context) error }, <Msg> an embedded message type
+//	                                         -> nodegen <Node> rxtype <T> embeds=<Msg> @L(type spec)
+//	      every txfield type T: struct whose first field is an embedded message type <Msg>; the
+//	        other fields are not checked      -> nodegen <Node> txtype <T> embeds=<Msg> @L
+//	      methods of S_Rx (receiver (rx *S_Rx)) / S_Tx (receiver (tx *S_Tx)): exactly one ServeHTTP
+//	        (signature and body NOT read) plus accessors
+//	        <Method>() <Node>_Rx_<Method> { return &rx.<field> }   -> nodegen <Node> rxaccessor <Method> field=<field> @L(return)
+//	        <Method>() <Node>_Tx_<Method> { return &tx.<field> }   -> nodegen <Node> txaccessor <Method> field=<field> @L
+//	      func New<Node>(network, address string) <Node> { n := &S{network: network, address: address};
+//	        n.rx.parentMutex = &n.Mutex; n.tx.parentMutex = &n.Mutex; then per rxfield in order
+//	        n.rx.<f>.init(); n.rx.<f>.Reset(); then per txfield n.tx.<f>.init(); n.tx.<f>.Reset();
+//	        return n }                           (checked, prints nothing)
+//	      end-nodegen <Node>
+//	    Print order per node: struct, descriptor, rxfield*, txfield*, rxtype*, txtype*, received*,
+//	    transmitted*, rxaccessor*, txaccessor*, end-nodegen. Every struct type named xxx_... must be
+//	    S, S_Rx, S_Tx or an rx/tx field type of such a node, else error. The METHODS of the rx/tx
+//	    message structs (xxx_<Node>_Rx_<Msg>, xxx_<Node>_Tx_<Msg>: init, hooks, times, Transmit ...)
+//	    and the <Node>, <Node>_Rx, ... interfaces are NOT read in this round.
 //
 // # Per message type (file order of the struct declarations)
 //
@@ -301,6 +338,20 @@ func typeStr(e ast.Expr) string {
 		if _, isStar := t.X.(*ast.StarExpr); !isStar {
 			if s := typeStr(t.X); s != "" {
 				return "*" + s
+			}
+		}
+	case *ast.ArrayType:
+		if t.Len == nil {
+			if s := typeStr(t.Elt); s != "" {
+				return "[]" + s
+			}
+		}
+	case *ast.FuncType:
+		// only func(context.Context) error (node code, F12)
+		if t.TypeParams == nil && t.Params != nil && len(t.Params.List) == 1 && t.Results != nil && len(t.Results.List) == 1 {
+			p, r := t.Params.List[0], t.Results.List[0]
+			if len(p.Names) == 0 && len(r.Names) == 0 && typeStr(p.Type) == "context.Context" && typeStr(r.Type) == "error" {
+				return "func(context.Context) error"
 			}
 		}
 	}
@@ -816,7 +867,7 @@ func (c *ctx) doAccessor(fd *ast.FuncDecl, msg string) {
 	if fd.Body == nil {
 		c.fail(fd.Pos(), "%s: no body", where)
 	}
-	plain := func(t string) bool { return t != "" && !strings.ContainsAny(t, "*.") }
+	plain := func(t string) bool { return t != "" && !strings.ContainsAny(t, "*.[]() ,") }
 	switch {
 	case len(ps) == 0 && len(rs) == 1 && plain(rs[0]):
 		const shape = "%s: getter body must be return m.<fld> or return Messages().%s.<Sig>.ToPhysical(<C>(m.<fld>))"
@@ -1312,9 +1363,10 @@ func (c *ctx) process(file *ast.File) {
 	}
 
 	isMsg := func(name string) bool { return msgs[name] != nil }
-	c.doNodes(file, ndSpec, nodesFn, structs["NodesDescriptor"])
+	nodeKeys := c.doNodes(file, ndSpec, nodesFn, structs["NodesDescriptor"])
 	c.doDispatch(file, funcs, isMsg)
 	c.doEnums(typedecls, constDecls, funcs)
+	c.doNodeGen(nodeKeys, structs, structOrder, funcs, isMsg)
 
 	for _, name := range structOrder {
 		mi := msgs[name]
@@ -1434,7 +1486,7 @@ func fmtCall(e ast.Expr, fn string) (ast.Expr, ast.Expr, bool) {
 	return args[0], args[1], true
 }
 
-func (c *ctx) doNodes(file *ast.File, ndSpec *ast.ValueSpec, nodesFn *ast.FuncDecl, ts *ast.TypeSpec) {
+func (c *ctx) doNodes(file *ast.File, ndSpec *ast.ValueSpec, nodesFn *ast.FuncDecl, ts *ast.TypeSpec) []string {
 	if ndSpec == nil {
 		c.fail(file.Pos(), "no var nd = &NodesDescriptor{...}")
 	}
@@ -1491,6 +1543,7 @@ func (c *ctx) doNodes(file *ast.File, ndSpec *ast.ValueSpec, nodesFn *ast.FuncDe
 			c.fail(f.Pos(), "NodesDescriptor: field %d must be %s *descriptor.Node", i, keys[i])
 		}
 	}
+	return keys
 }
 
 func (c *ctx) doDispatch(file *ast.File, funcs []*ast.FuncDecl, isMsg func(string) bool) {
@@ -1837,6 +1890,437 @@ func (c *ctx) doEnums(typedecls []*ast.TypeSpec, constDecls []*ast.GenDecl, func
 			}
 		}
 		c.emit("end-enum", t)
+	}
+}
+
+// ---- generated node types (F12) -------------------------------------------------------
+
+// addrSel2 matches &<a>.<b>.<field>.
+func addrSel2(e ast.Expr, a, b string) (string, bool) {
+	u, ok := e.(*ast.UnaryExpr)
+	if !ok || u.Op != token.AND {
+		return "", false
+	}
+	s, ok := u.X.(*ast.SelectorExpr)
+	if !ok {
+		return "", false
+	}
+	if x, ok := selOf(s.X, a); !ok || x != b {
+		return "", false
+	}
+	return s.Sel.Name, true
+}
+
+// addrSel1 matches &<a>.<field>.
+func addrSel1(e ast.Expr, a string) (string, bool) {
+	u, ok := e.(*ast.UnaryExpr)
+	if !ok || u.Op != token.AND {
+		return "", false
+	}
+	return selOf(u.X, a)
+}
+
+// oneReturn checks signature and that the body is exactly one "return <e>".
+func (c *ctx) oneReturn(fd *ast.FuncDecl, where string, params [][2]string, results []string) (ast.Stmt, []ast.Expr) {
+	c.wantSig(fd, params, results)
+	if len(fd.Body.List) != 1 {
+		c.fail(fd.Pos(), "%s: body must be exactly one return statement", where)
+	}
+	r, ok := fd.Body.List[0].(*ast.ReturnStmt)
+	if !ok || len(r.Results) != len(results) {
+		c.fail(fd.Body.List[0].Pos(), "%s: body must be exactly one return statement with %d result(s)", where, len(results))
+	}
+	return r, r.Results
+}
+
+func (c *ctx) recvIs(fd *ast.FuncDecl, name, typ string) {
+	r := fd.Recv.List[0]
+	if len(r.Names) != 1 || r.Names[0].Name != name || typeStr(r.Type) != typ {
+		c.fail(fd.Pos(), "method %s: receiver must be (%s %s)", fd.Name.Name, name, typ)
+	}
+}
+
+func (c *ctx) doNodeGen(keys []string, structs map[string]*ast.TypeSpec, structOrder []string, funcs []*ast.FuncDecl, isMsg func(string) bool) {
+	methods := map[string][]*ast.FuncDecl{}
+	plainFn := map[string]*ast.FuncDecl{}
+	for _, fd := range funcs {
+		if fd.Recv != nil {
+			b := c.recvBase(fd)
+			methods[b] = append(methods[b], fd)
+		} else {
+			plainFn[fd.Name.Name] = fd
+		}
+	}
+	accounted := map[string]bool{}
+	type fld struct {
+		name, typ string
+		pos       token.Pos
+	}
+	for _, node := range keys {
+		sn := "xxx_" + node
+		ts := structs[sn]
+		if ts == nil {
+			continue
+		}
+		accounted[sn], accounted[sn+"_Rx"], accounted[sn+"_Tx"] = true, true, true
+		// struct xxx_<Node>
+		want := [][2]string{{"", "sync.Mutex"}, {"network", "string"}, {"address", "string"}, {"rx", sn + "_Rx"}, {"tx", sn + "_Tx"}}
+		fl := c.structFields(ts.Type.(*ast.StructType))
+		if len(fl) != len(want) {
+			c.fail(ts.Pos(), "%s: struct must be { sync.Mutex; network string; address string; rx %s_Rx; tx %s_Tx }", sn, sn, sn)
+		}
+		for i, f := range fl {
+			n := ""
+			if len(f.Names) == 1 {
+				n = f.Names[0].Name
+			}
+			if len(f.Names) > 1 || f.Tag != nil || n != want[i][0] || typeStr(f.Type) != want[i][1] {
+				c.fail(f.Pos(), "%s: field %d must be %s %s", sn, i, want[i][0], want[i][1])
+			}
+		}
+		c.emit("nodegen", node, "struct", c.line(ts.Pos()))
+		// methods of xxx_<Node>
+		fixed := map[string]*ast.FuncDecl{}
+		for _, fd := range methods[sn] {
+			c.recvIs(fd, "n", "*"+sn)
+			switch n := fd.Name.Name; n {
+			case "Run", "Rx", "Tx", "Descriptor", "Connect", "ReceivedMessage", "TransmittedMessages":
+				if fixed[n] != nil {
+					c.fail(fd.Pos(), "duplicate method %s.%s", sn, n)
+				}
+				fixed[n] = fd
+			default:
+				c.fail(fd.Pos(), "unexpected method %s.%s", sn, n)
+			}
+		}
+		for _, n := range []string{"Run", "Rx", "Tx", "Descriptor", "Connect", "ReceivedMessage", "TransmittedMessages"} {
+			if fixed[n] == nil {
+				c.fail(ts.Pos(), "%s has no method %s", sn, n)
+			}
+		}
+		// Descriptor
+		{
+			where := sn + ".Descriptor"
+			st, rs := c.oneReturn(fixed["Descriptor"], where, nil, []string{"*descriptor.Node"})
+			s, ok := rs[0].(*ast.SelectorExpr)
+			good := ok
+			if good {
+				fun, args, ok := callOf(s.X)
+				good = ok && len(args) == 0 && isIdent(fun, "Nodes")
+			}
+			if !good {
+				c.fail(st.Pos(), "%s: body must be return Nodes().<Node>", where)
+			}
+			c.emit("nodegen", node, "descriptor="+s.Sel.Name, c.line(st.Pos()))
+		}
+		// Run, Rx, Tx, Connect (checked, no lines)
+		{
+			st, rs := c.oneReturn(fixed["Run"], sn+".Run", [][2]string{{"ctx", "context.Context"}}, []string{"error"})
+			fun, args, ok := callOf(rs[0])
+			good := ok && len(args) == 2 && isIdent(args[0], "ctx") && isIdent(args[1], "n")
+			if good {
+				x, ok := selOf(fun, "canrunner")
+				good = ok && x == "Run"
+			}
+			if !good {
+				c.fail(st.Pos(), "%s.Run: body must be return canrunner.Run(ctx, n)", sn)
+			}
+			st, rs = c.oneReturn(fixed["Rx"], sn+".Rx", nil, []string{node + "_Rx"})
+			if x, ok := addrSel1(rs[0], "n"); !ok || x != "rx" {
+				c.fail(st.Pos(), "%s.Rx: body must be return &n.rx", sn)
+			}
+			st, rs = c.oneReturn(fixed["Tx"], sn+".Tx", nil, []string{node + "_Tx"})
+			if x, ok := addrSel1(rs[0], "n"); !ok || x != "tx" {
+				c.fail(st.Pos(), "%s.Tx: body must be return &n.tx", sn)
+			}
+			cfd := fixed["Connect"]
+			c.wantSig(cfd, nil, []string{"net.Conn", "error"})
+			if len(cfd.Body.List) != 1 {
+				c.fail(cfd.Pos(), "%s.Connect: body must be return socketcan.Dial(n.network, n.address)", sn)
+			}
+			st = cfd.Body.List[0]
+			r, ok := st.(*ast.ReturnStmt)
+			good = ok && len(r.Results) == 1
+			if good {
+				fun, args, ok := callOf(r.Results[0])
+				good = ok && len(args) == 2
+				if good {
+					x, ok0 := selOf(fun, "socketcan")
+					a, ok1 := selOf(args[0], "n")
+					b, ok2 := selOf(args[1], "n")
+					good = ok0 && ok1 && ok2 && x == "Dial" && a == "network" && b == "address"
+				}
+			}
+			if !good {
+				c.fail(st.Pos(), "%s.Connect: body must be return socketcan.Dial(n.network, n.address)", sn)
+			}
+		}
+		// rx / tx structs
+		group := func(dir string) []fld {
+			gn := sn + "_" + dir
+			gts := structs[gn]
+			if gts == nil {
+				c.fail(ts.Pos(), "no type %s struct", gn)
+			}
+			gfl := c.structFields(gts.Type.(*ast.StructType))
+			if len(gfl) < 1 || len(gfl[0].Names) != 1 || gfl[0].Names[0].Name != "parentMutex" || typeStr(gfl[0].Type) != "*sync.Mutex" || gfl[0].Tag != nil {
+				c.fail(gts.Pos(), "%s: first field must be parentMutex *sync.Mutex", gn)
+			}
+			var out []fld
+			for _, f := range gfl[1:] {
+				if len(f.Names) != 1 || f.Tag != nil {
+					c.fail(f.Pos(), "%s: field must have exactly one name and no tag", gn)
+				}
+				t, ok := ident(f.Type)
+				if !ok {
+					c.fail(f.Pos(), "%s: field type must be a plain identifier", gn)
+				}
+				out = append(out, fld{f.Names[0].Name, t, f.Pos()})
+				c.emit("nodegen", node, strings.ToLower(dir)+"field", f.Names[0].Name, "type="+t, c.line(f.Pos()))
+			}
+			return out
+		}
+		rxf := group("Rx")
+		txf := group("Tx")
+		for _, f := range rxf {
+			mts := structs[f.typ]
+			if mts == nil {
+				c.fail(f.pos, "%s_Rx.%s: type %s is not a top-level struct", sn, f.name, f.typ)
+			}
+			accounted[f.typ] = true
+			mfl := c.structFields(mts.Type.(*ast.StructType))
+			const shape = "%s: struct must be { <Msg>; receiveTime time.Time; afterReceiveHook func(context.Context) error }"
+			if len(mfl) != 3 || len(mfl[0].Names) != 0 || mfl[0].Tag != nil {
+				c.fail(mts.Pos(), shape, f.typ)
+			}
+			emb, ok := ident(mfl[0].Type)
+			if !ok {
+				c.fail(mts.Pos(), shape, f.typ)
+			}
+			if !isMsg(emb) {
+				c.fail(mfl[0].Pos(), "%s: embedded %s is not a message type", f.typ, emb)
+			}
+			for i, w := range [][2]string{{"receiveTime", "time.Time"}, {"afterReceiveHook", "func(context.Context) error"}} {
+				g := mfl[i+1]
+				if len(g.Names) != 1 || g.Tag != nil || g.Names[0].Name != w[0] || typeStr(g.Type) != w[1] {
+					c.fail(g.Pos(), shape, f.typ)
+				}
+			}
+			c.emit("nodegen", node, "rxtype", f.typ, "embeds="+emb, c.line(mts.Pos()))
+		}
+		for _, f := range txf {
+			mts := structs[f.typ]
+			if mts == nil {
+				c.fail(f.pos, "%s_Tx.%s: type %s is not a top-level struct", sn, f.name, f.typ)
+			}
+			accounted[f.typ] = true
+			mfl := c.structFields(mts.Type.(*ast.StructType))
+			if len(mfl) < 1 || len(mfl[0].Names) != 0 || mfl[0].Tag != nil {
+				c.fail(mts.Pos(), "%s: first field must be an embedded message type", f.typ)
+			}
+			emb, ok := ident(mfl[0].Type)
+			if !ok {
+				c.fail(mts.Pos(), "%s: first field must be an embedded message type", f.typ)
+			}
+			if !isMsg(emb) {
+				c.fail(mfl[0].Pos(), "%s: embedded %s is not a message type", f.typ, emb)
+			}
+			c.emit("nodegen", node, "txtype", f.typ, "embeds="+emb, c.line(mts.Pos()))
+		}
+		// ReceivedMessage
+		{
+			where := sn + ".ReceivedMessage"
+			fd := fixed["ReceivedMessage"]
+			c.wantSig(fd, [][2]string{{"id", "uint32"}}, []string{"canrunner.ReceivedMessage", "bool"})
+			if len(fd.Body.List) != 1 {
+				c.fail(fd.Pos(), "%s: body must be exactly one switch id {...}", where)
+			}
+			sw, ok := fd.Body.List[0].(*ast.SwitchStmt)
+			if !ok || sw.Init != nil || sw.Tag == nil || !isIdent(sw.Tag, "id") {
+				c.fail(fd.Body.List[0].Pos(), "%s: body must be exactly one switch id {...}", where)
+			}
+			n := len(sw.Body.List)
+			if n == 0 {
+				c.fail(sw.Pos(), "%s: default clause is missing", where)
+			}
+			for i, cs := range sw.Body.List {
+				cc, ok := cs.(*ast.CaseClause)
+				if !ok || len(cc.Body) != 1 {
+					c.fail(cs.Pos(), "%s: every clause must contain exactly one return statement", where)
+				}
+				r, ok := cc.Body[0].(*ast.ReturnStmt)
+				if !ok || len(r.Results) != 2 {
+					c.fail(cc.Body[0].Pos(), "%s: every clause must contain exactly one return statement with two results", where)
+				}
+				if cc.List == nil {
+					if i != n-1 {
+						c.fail(cc.Pos(), "%s: default clause must be last", where)
+					}
+					if !isIdent(r.Results[0], "nil") || !isIdent(r.Results[1], "false") {
+						c.fail(r.Pos(), "%s: default body must be return nil, false", where)
+					}
+					c.emit("nodegen", node, "received", "default", c.line(cc.Pos()))
+					continue
+				}
+				if i == n-1 {
+					c.fail(cc.Pos(), "%s: last clause must be default", where)
+				}
+				if len(cc.List) != 1 {
+					c.fail(cc.Pos(), "%s: every case must have exactly one expression", where)
+				}
+				v, ok := decLit(cc.List[0])
+				if !ok {
+					c.fail(cc.Pos(), "%s: case expression must be a decimal literal", where)
+				}
+				f, ok := addrSel2(r.Results[0], "n", "rx")
+				if !ok || !isIdent(r.Results[1], "true") {
+					c.fail(r.Pos(), "%s: case body must be return &n.rx.<field>, true", where)
+				}
+				c.emit("nodegen", node, "received", "case="+v, "field="+f, c.line(cc.Pos()))
+			}
+		}
+		// TransmittedMessages
+		{
+			where := sn + ".TransmittedMessages"
+			st, rs := c.oneReturn(fixed["TransmittedMessages"], where, nil, []string{"[]canrunner.TransmittedMessage"})
+			cl, ok := rs[0].(*ast.CompositeLit)
+			if !ok || cl.Type == nil || typeStr(cl.Type) != "[]canrunner.TransmittedMessage" {
+				c.fail(st.Pos(), "%s: body must be return []canrunner.TransmittedMessage{&n.tx.<field>, ...}", where)
+			}
+			for _, el := range cl.Elts {
+				f, ok := addrSel2(el, "n", "tx")
+				if !ok {
+					c.fail(el.Pos(), "%s: element must be &n.tx.<field>", where)
+				}
+				c.emit("nodegen", node, "transmitted", "field="+f, c.line(el.Pos()))
+			}
+		}
+		// accessors on xxx_<Node>_Rx / _Tx
+		for _, dir := range []string{"Rx", "Tx"} {
+			gn := sn + "_" + dir
+			rn := strings.ToLower(dir)
+			serve := 0
+			for _, fd := range methods[gn] {
+				c.recvIs(fd, rn, "*"+gn)
+				name := fd.Name.Name
+				if name == "ServeHTTP" {
+					serve++
+					continue
+				}
+				where := gn + "." + name
+				st, rs := c.oneReturn(fd, where, nil, []string{node + "_" + dir + "_" + name})
+				f, ok := addrSel1(rs[0], rn)
+				if !ok {
+					c.fail(st.Pos(), "%s: body must be return &%s.<field>", where, rn)
+				}
+				c.emit("nodegen", node, rn+"accessor", name, "field="+f, c.line(st.Pos()))
+			}
+			if serve != 1 {
+				c.fail(structs[gn].Pos(), "%s must have exactly one method ServeHTTP (found %d)", gn, serve)
+			}
+		}
+		// New<Node>
+		{
+			where := "New" + node
+			fd := plainFn[where]
+			if fd == nil {
+				c.fail(ts.Pos(), "no func %s", where)
+			}
+			ps := fd.Type.Params
+			good := ps != nil && len(ps.List) == 1 && len(ps.List[0].Names) == 2 &&
+				ps.List[0].Names[0].Name == "network" && ps.List[0].Names[1].Name == "address" && typeStr(ps.List[0].Type) == "string"
+			if !good || fd.Body == nil {
+				c.fail(fd.Pos(), "%s: signature must be (network, address string) %s", where, node)
+			}
+			if rs := c.results(fd); len(rs) != 1 || rs[0] != node {
+				c.fail(fd.Pos(), "%s: signature must be (network, address string) %s", where, node)
+			}
+			l := fd.Body.List
+			wantLen := 4 + 2*len(rxf) + 2*len(txf)
+			if len(l) != wantLen {
+				c.fail(fd.Pos(), "%s: body has %d statements, want %d", where, len(l), wantLen)
+			}
+			// n := &xxx_<Node>{network: network, address: address}
+			a, ok := l[0].(*ast.AssignStmt)
+			good = ok && a.Tok == token.DEFINE && len(a.Lhs) == 1 && len(a.Rhs) == 1 && isIdent(a.Lhs[0], "n")
+			if good {
+				u, ok := a.Rhs[0].(*ast.UnaryExpr)
+				good = ok && u.Op == token.AND
+				if good {
+					cl, ok := u.X.(*ast.CompositeLit)
+					good = ok && cl.Type != nil && isIdent(cl.Type, sn) && len(cl.Elts) == 2
+					if good {
+						for i, k := range []string{"network", "address"} {
+							kv, ok := cl.Elts[i].(*ast.KeyValueExpr)
+							good = good && ok && isIdent(kv.Key, k) && isIdent(kv.Value, k)
+						}
+					}
+				}
+			}
+			if !good {
+				c.fail(l[0].Pos(), "%s: first statement must be n := &%s{network: network, address: address}", where, sn)
+			}
+			for i, dir := range []string{"rx", "tx"} {
+				st := l[1+i]
+				a, ok := st.(*ast.AssignStmt)
+				good = ok && a.Tok == token.ASSIGN && len(a.Lhs) == 1 && len(a.Rhs) == 1
+				if good {
+					lhs, ok := a.Lhs[0].(*ast.SelectorExpr)
+					good = ok && lhs.Sel.Name == "parentMutex"
+					if good {
+						x, ok := selOf(lhs.X, "n")
+						y, ok2 := addrSel1(a.Rhs[0], "n")
+						good = ok && ok2 && x == dir && y == "Mutex"
+					}
+				}
+				if !good {
+					c.fail(st.Pos(), "%s: statement must be n.%s.parentMutex = &n.Mutex", where, dir)
+				}
+			}
+			k := 3
+			callStmt := func(st ast.Stmt, dir, f, meth string) {
+				es, ok := st.(*ast.ExprStmt)
+				good := ok
+				if good {
+					fun, args, ok := callOf(es.X)
+					good = ok && len(args) == 0
+					if good {
+						s1, ok := fun.(*ast.SelectorExpr)
+						good = ok && s1.Sel.Name == meth
+						if good {
+							s2, ok := s1.X.(*ast.SelectorExpr)
+							good = ok && s2.Sel.Name == f
+							if good {
+								x, ok := selOf(s2.X, "n")
+								good = ok && x == dir
+							}
+						}
+					}
+				}
+				if !good {
+					c.fail(st.Pos(), "%s: statement must be n.%s.%s.%s()", where, dir, f, meth)
+				}
+			}
+			for _, f := range rxf {
+				callStmt(l[k], "rx", f.name, "init")
+				callStmt(l[k+1], "rx", f.name, "Reset")
+				k += 2
+			}
+			for _, f := range txf {
+				callStmt(l[k], "tx", f.name, "init")
+				callStmt(l[k+1], "tx", f.name, "Reset")
+				k += 2
+			}
+			if r, ok := returnOne(l[k]); !ok || !isIdent(r, "n") {
+				c.fail(l[k].Pos(), "%s: last statement must be return n", where)
+			}
+		}
+		c.emit("end-nodegen", node)
+	}
+	for _, name := range structOrder {
+		if strings.HasPrefix(name, "xxx_") && !accounted[name] {
+			c.fail(structs[name].Pos(), "struct %s does not belong to the generated code of a node of the nd literal", name)
+		}
 	}
 }
 
